@@ -291,7 +291,7 @@ def run(ctx):
     tree = merge([{'counters': r['counters'], 'outcomes': r['outcomes'], 'violations': r['violations'],
                    'samples': r['samples']} for r in results])
     # (ii) BFS to fixpoint
-    aname = 'A2' if ctx.tier == 'quick' else 'A3c'
+    aname = 'A2' if ctx.tier == 'quick' else 'A3s'
     alpha = _alphabet(aname)
     seen = {}
     frontier = [[]]
